@@ -446,6 +446,8 @@ func f6Definitions() []BashCase {
 		"sibling-block-locals":       {def("x", il(1)), If{Branches: []IfBranch{{cmp("==", vr("x"), il(1)), []Stmt{def("t", il(10)), pr(vr("t"))}}}, HasElse: true, Else: []Stmt{def("t", il(20)), pr(vr("t"))}}, ifs(cmp("==", vr("x"), il(1)), def("t", sl("again")), pr(vr("t"))), forUp("k", 2, def("t", bin("*", vr("k"), il(3))), pr(vr("t")))},
 		"nested-loop-var-after-inner": {forUp("i", 2, forUp("j", 2, pr(vr("i"), vr("j"))), forUp("j", 1, pr(sl("again"), vr("j"))))},
 		"loop-var-in-two-functions":  {fn("fa", nil, []Type{TInt}, def("t", il(0)), forUp("i", 3, OpAssign{"t", "+", vr("i")}), ret(vr("t"))), fn("fb", nil, []Type{TInt}, def("t", il(0)), forUp("i", 4, OpAssign{"t", "+", vr("i")}), forUp("i", 2, OpAssign{"t", "+", il(100)}), ret(vr("t"))), pr(call("fa"), call("fb"))},
+		// integer literals written with leading zeros are decimal numbers
+		"zero-padded-literals": {def("a", PaddedInt{10, "010"}), def("b", PaddedInt{7, "007"}), def("c", PaddedInt{-20, "-020"}), def("d", PaddedInt{0, "00"}), def("e", PaddedInt{100, "0100"}), pr(vr("a"), vr("b"), vr("c"), vr("d"), vr("e"), bin("+", vr("a"), PaddedInt{89, "089"}), bin("*", PaddedInt{8, "08"}, PaddedInt{9, "09"})), ifs(cmp("==", vr("a"), il(10)), pr(sl("ten"))), Switch{Tag: vr("a"), Cases: []SwitchCase{{E: PaddedInt{8, "08"}, Body: []Stmt{pr(sl("eight"))}}, {E: PaddedInt{10, "0010"}, Body: []Stmt{pr(sl("ten again"))}}}}, forUp("i", 2, pr(bin("+", vr("i"), PaddedInt{1, "01"})))},
 		// tuple assignments of plain variables (old values on the right)
 		"swap-and-rotate": {def("a", il(1)), def("b", il(2)), def("c", il(3)), Assign{[]string{"a", "b"}, []Expr{vr("b"), vr("a")}}, pr(vr("a"), vr("b")), Assign{[]string{"a", "b", "c"}, []Expr{vr("b"), vr("c"), vr("a")}}, pr(vr("a"), vr("b"), vr("c")), def("s", sl("x")), def("t", sl("y")), Assign{[]string{"s", "t"}, []Expr{vr("t"), vr("s")}}, pr(vr("s"), vr("t")), def("p", bl(true)), def("q", bl(false)), Assign{[]string{"p", "q"}, []Expr{vr("q"), vr("p")}}, pr(vr("p"), vr("q")), forUp("i", 3, Assign{[]string{"a", "b"}, []Expr{vr("b"), bin("+", vr("a"), vr("b"))}}), pr(vr("a"), vr("b"))},
 		// empty branches and cases end the chain like any other branch
